@@ -142,9 +142,101 @@ def run(ctx):
         if len(ctx.failing) > 6:
             break
     ctx.counters["diffs"] = nd
+    consumers(ctx, rnd)
     ctx.sample({"line": lines[0][:200], "model": out[0][:200]})
     ctx.sample({"line": lines[-1][:300], "model": out[-1][:300]})
-    ctx.undecided.append("sympy variable names and diagram labels are compared with the identifier maps by C20's check")
+    ctx.undecided.append("diagram labels are compared with the identifier maps by C20's check")
+
+
+def consumers(ctx, rnd):
+    """The same identifier denotes the same element for the consumers of the maps: the table of fitted parameters (circuits
+    with up to 26 elements: identifiers with one and two digits, repeated types) and the symbolic expression's variables
+    (incl. elements nested in containers)."""
+    import numpy as np
+    import sympy
+    from copy import deepcopy
+    from pyimpspec import Circuit, parse_cdc
+    import pyimpspec.analysis.fitting as FT
+    from lmfit.minimizer import MinimizerResult
+    big = ctx.thorough
+    # ---- table of fitted parameters
+    for j in range(120 if big else 30):
+        n = rnd.choice([1, 3, 9, 10, 11, 12, 13, 20, 21, 26]) if j % 2 else rnd.randint(1, 26)
+        t = circgen.fill(rnd, circgen.random_shape(rnd, n), rnd.choice([["R", "C"], ["R", "C", "L", "Q", "W"], ["R"]]))
+        c = Circuit(circgen.build(t))
+        for e in c.get_elements(recursive=True):
+            for k in e.get_values():
+                if rnd.random() < 0.2:
+                    e.set_fixed(**{k: True})
+        ids = FT.generate_fit_identifiers(c)
+        try:
+            params = FT._to_lmfit(ids, {}, {})
+        except ValueError:
+            continue
+        # every varied parameter gets its own, recognisable value
+        tag = {}
+        for i, (name, p) in enumerate(params.items()):
+            if p.vary:
+                lo = p.min if np.isfinite(p.min) else 0.0
+                hi = p.max if np.isfinite(p.max) else lo + 1e6
+                p.value = lo + (hi - lo) * (i + 1) / (len(params) + 2)
+                tag[name] = p.value
+        c2 = deepcopy(c)
+        ids2 = FT.generate_fit_identifiers(c2)
+        FT._from_lmfit(params, ids2)
+        try:
+            tbl = FT._extract_parameters(c2, MinimizerResult(var_names=[n_ for n_, p in params.items() if p.vary], params=params))
+        except Exception as x:  # noqa
+            ctx.add_failing("fitted-parameter-table", {"cdc": c.serialize(3), "elements": n}, observed=f"{type(x).__name__}: {x}"[:200], expected="a table", clause="the same name denotes the same element in the table of fitted parameters")
+            continue
+        ctx.count("consumer:parameter-table")
+        ctx.note_case(("table", c.to_string(0)))
+        typ = c2.generate_element_identifiers(running=False)
+        for e in c2.get_elements(recursive=True):
+            name = e.get_name() if e.get_name() != e.get_symbol() else f"{e.get_symbol()}_{typ[e]}"
+            row = tbl.get(name, {})
+            for k, v in e.get_values().items():
+                if k not in row or row[k].value != v:
+                    ctx.add_failing("fitted-parameter-table", {"cdc": c.serialize(3), "elements": n, "element": name, "parameter": k}, observed=f"table reports {row[k].value if k in row else None!r}", expected=f"the element's value {v!r}",
+                                    clause="a value reported under a name is always the value of that element's parameter (table of fitted parameters)")
+                    break
+            else:
+                continue
+            break
+    # ---- symbolic variables
+    symbols = ["R", "C", "L", "Q", "W", "Tlm", "Tlmbo"]
+    for j in range(40 if big else 10):
+        t = circgen.fill(rnd, circgen.random_shape(rnd, rnd.randint(1, 5)), symbols)
+        c = Circuit(circgen.build(t))
+        if j % 2 == 0:
+            c = parse_cdc(rnd.choice(["RRTlm", "R(C[RTlm])", "Tlm(RC)", "R(RTlm)C", "Tlm{X_1=R(RC)}R"]))
+        ids = FT.generate_fit_identifiers(c)
+        want = {getattr(m, k) for e, m in ids.items() for k in e.get_values() if not e.get_label()}
+        try:
+            with pyutil.TimeLimit(60):
+                expr = c.to_sympy(substitute=False)
+                got = {str(s_) for s_ in expr.free_symbols} - {"f"}
+        except (Exception, TimeoutError) as x:  # noqa
+            ctx.count("consumer:sympy:skipped:" + type(x).__name__)
+            continue
+        ctx.count("consumer:sympy-variables")
+        ctx.note_case(("sympy", c.to_string(0)))
+        # every variable of the expression is one of the fit identifiers (parameters that cancel may be absent), and a
+        # variable never denotes two elements: substituting each element's values under its own names reproduces the impedance
+        if not got <= want:
+            ctx.add_failing("sympy-variables", {"cdc": c.serialize(3)}, observed=sorted(got - want), expected=f"a subset of {sorted(want)}", clause="the same name/identifier denotes the same element in the symbolic expression's variables")
+            continue
+        try:
+            with pyutil.TimeLimit(60):
+                sub = {getattr(m, k): v for e, m in ids.items() for k, v in e.get_values().items()}
+                f0 = 10 ** rnd.uniform(-1, 3)
+                z = complex(sympy.N(expr.subs({k: (v if np.isfinite(v) else sympy.oo) for k, v in sub.items()}).subs("f", f0)))
+                zr = complex(c.get_impedances(np.array([f0]))[0])
+        except (Exception, TimeoutError) as x:  # noqa
+            ctx.count("consumer:sympy:evaluation-skipped:" + type(x).__name__)
+            continue
+        if np.isfinite(zr) and not (abs(z - zr) <= 1e-6 * abs(zr)):
+            ctx.add_failing("sympy-variables", {"cdc": c.serialize(3), "f": f0}, observed=f"expression with every element's values under its own names = {z}", expected=f"{zr}", clause="a value reported under a name is always the value of that element's parameter (symbolic expression)")
 
 
 def search(ctx):
